@@ -22,6 +22,25 @@ type LT = DefaultLexerTypes<u32>;
 pub struct Case {
     pub text: String,
     pub origin: String,
+    /// flags handed to LRNonStreamingLexerDef::new_with_options, one bit per boolean flag in the
+    /// order of LEX_FLAG_NAMES (0 = the defaults)
+    #[serde(default)]
+    pub lex_flags: u32,
+}
+
+pub const LEX_FLAG_NAMES: &[&str] = &["allow_wholeline_comments", "posix_escapes", "octal", "case_insensitive", "ignore_whitespace", "multi_line", "swap_greed"];
+
+fn lex_flags_of(bits: u32) -> lrlex::LexFlags {
+    let mut f = DEFAULT_LEX_FLAGS;
+    let on = |k: u32| if bits & (1 << k) != 0 { Some(true) } else { None };
+    f.allow_wholeline_comments = on(0).or(f.allow_wholeline_comments);
+    f.posix_escapes = on(1).or(f.posix_escapes);
+    f.octal = on(2).or(f.octal);
+    f.case_insensitive = on(3).or(f.case_insensitive);
+    f.ignore_whitespace = on(4).or(f.ignore_whitespace);
+    f.multi_line = on(5).or(f.multi_line);
+    f.swap_greed = on(6).or(f.swap_greed);
+    f
 }
 
 static CORPUS: OnceLock<Vec<(String, String)>> = OnceLock::new();
@@ -77,10 +96,18 @@ fn char_bounds(s: &str) -> Vec<usize> {
 pub fn mutate_text(ch: &mut Choices, text: &mut String, other: &str) {
     let bs = char_bounds(text);
     let at = |ch: &mut Choices, bs: &Vec<usize>| bs[ch.pick(bs.len())];
-    match ch.pick(14) {
+    match ch.pick(16) {
         0 => {
             let p = at(ch, &bs);
             text.truncate(p);
+        }
+        14 | 15 => {
+            // premature end: everything from the start of some line on is replaced by a fragment of
+            // a line (comment, declaration, rule prefix ...) that is not terminated by a newline
+            let starts: Vec<usize> = std::iter::once(0).chain(text.match_indices('\n').map(|(i, _)| i + 1)).collect();
+            let p = starts[ch.pick(starts.len())];
+            text.truncate(p);
+            text.push_str(*ch.choose(&["//", "// c", "//x", "// a comment that is rather long, longer than most headers are", "/*", "/* c", "%s A", "%x", "%", "%token", "%left 'a'", "%epp a", "%expect", "<A>", "<A", "a 'A'", "A:", "A: 'a'", "A -> u8:", "%%", "%grmtools{", "  ", "\t//", "\\", "a \\"]));
         }
         1 => {
             // delete one structural character
@@ -262,30 +289,32 @@ impl Prop for C12 {
             let cut = *bs.iter().rev().find(|b| **b <= 8000).unwrap();
             text.truncate(cut);
         }
-        serde_json::to_value(Case { text, origin }).unwrap()
+        // 1/3 of the texts go to new_with_options with non-default flags
+        let lex_flags = if ch.chance(1, 3) { 1 + ch.pick((1 << LEX_FLAG_NAMES.len()) - 1) as u32 } else { 0 };
+        serde_json::to_value(Case { text, origin, lex_flags }).unwrap()
     }
     fn extra_cases(&self, _tier: Tier, _seed: u64) -> Vec<Value> {
         // every corpus file and header snippet unmutated, and truncated at every char boundary of
         // its first 300 bytes
         let mut v = vec![];
         for (n, s) in corpus() {
-            v.push(serde_json::to_value(Case { text: s.clone(), origin: n.clone() }).unwrap());
+            v.push(serde_json::to_value(Case { text: s.clone(), origin: n.clone(), lex_flags: 0 }).unwrap());
         }
         for h in HEADER_SNIPPETS {
             for b in char_bounds(h) {
-                v.push(serde_json::to_value(Case { text: h[..b].to_string(), origin: "header-prefix".into() }).unwrap());
+                v.push(serde_json::to_value(Case { text: h[..b].to_string(), origin: "header-prefix".into(), lex_flags: 0 }).unwrap());
             }
         }
         v
     }
     fn rule(&self) -> String {
-        "Texts: 75 specifications extracted from the repository (every .y/.l, the grammar/lexer sections of cttests, %grmtools snippets of the header tests), own generated .y/.l renderings and header snippets, with 0-4 mutations (truncate at any char boundary, delete/duplicate a bracket-quote-brace, splice two files, 25-digit number, multi-byte character (letters, Unicode digits and blanks, combining, 4-byte) at any boundary, an ASCII digit/blank/letter replaced by a multi-byte character of the same Unicode class, remove/insert %%, replace/prepend a %grmtools section, insert a keyword/comment opener, delete/duplicate a line); plus all unmutated files and every prefix of the header snippets. Each text goes through ASTWithValidityInfo::new (5 kinds) and ::from_str, YaccGrammar::new_with_storaget/from_str, ast().warnings(), LRNonStreamingLexerDef::from_str/new_with_options, GrmtoolsSectionParser::parse(required true/false). Oracle: returns within the watchdog, no panic, Ok or non-empty Err, is_valid <=> no errors, every error/warning span inside the text on char boundaries. Evaluation = one text through all entry points. Non-trivial: some parser got past the header into declarations/rules (an error located after the first line or a valid result); distinct by hash(text).".into()
+        "Texts: 75 specifications extracted from the repository (every .y/.l, the grammar/lexer sections of cttests, %grmtools snippets of the header tests), own generated .y/.l renderings and header snippets, with 0-4 mutations (truncate at any char boundary, delete/duplicate a bracket-quote-brace, splice two files, 25-digit number, multi-byte character (letters, Unicode digits and blanks, combining, 4-byte) at any boundary, an ASCII digit/blank/letter replaced by a multi-byte character of the same Unicode class, remove/insert %%, replace/prepend a %grmtools section, insert a keyword/comment opener, delete/duplicate a line, premature end: the text from some line start on replaced by an unterminated line fragment such as a comment, a declaration or a rule prefix); plus all unmutated files and every prefix of the header snippets. Each text goes through ASTWithValidityInfo::new (5 kinds) and ::from_str, YaccGrammar::new_with_storaget/from_str, ast().warnings(), LRNonStreamingLexerDef::from_str/new_with_options (default flags, and for 1/3 of the texts a random non-empty subset of allow_wholeline_comments, posix_escapes, octal, case_insensitive, ignore_whitespace, multi_line, swap_greed), GrmtoolsSectionParser::parse(required true/false). Oracle: returns within the watchdog, no panic, Ok or non-empty Err, is_valid <=> no errors, every error/warning span inside the text on char boundaries. Evaluation = one text through all entry points. Non-trivial: some parser got past the header into declarations/rules (an error located after the first line or a valid result); distinct by hash(text).".into()
     }
     fn assumptions(&self) -> Vec<String> {
         vec!["'promptly' = 5 s for inputs <= 8 KB (normal cost: microseconds), re-confirmed with 50 s in a fresh process".into()]
     }
     fn required_classes(&self, _tier: Tier) -> Vec<&'static str> {
-        vec!["yacc:valid", "yacc:errors", "lex:valid", "lex:errors", "header:ok", "header:errors", "warnings"]
+        vec!["yacc:valid", "yacc:errors", "lex:valid", "lex:errors", "header:ok", "header:errors", "warnings", "lex:allow_wholeline_comments"]
     }
     fn evaluate(&self, case: &Value) -> Outcome {
         let case: Case = serde_json::from_value(case.clone()).unwrap();
@@ -432,7 +461,10 @@ impl Prop for C12 {
                     }
                 }
             }
-            let r = guard!(o, "LRNonStreamingLexerDef::new_with_options", text, LRNonStreamingLexerDef::<LT>::new_with_options(text, DEFAULT_LEX_FLAGS));
+            let r = guard!(o, "LRNonStreamingLexerDef::new_with_options", text, LRNonStreamingLexerDef::<LT>::new_with_options(text, lex_flags_of(case.lex_flags)));
+            if case.lex_flags & 1 != 0 {
+                o.class("lex:allow_wholeline_comments");
+            }
             if let Err(errs) = r {
                 if errs.is_empty() {
                     o.fail("wrong", "C12/lex/err-without-errors", text.clone());
